@@ -5,7 +5,7 @@ import json, subprocess
 CHECKS = {
  # id: (simulator, category, design_ref, text, note, technique)
  "C05": ("S-sim + R-sim", "exploration", "DESIGN.md §5 C05",
-         "One run in 64: pipelined requests over the real TLS / SSH / local transports with several complete replies per delivery. Otherwise seeded search over schedules: the real Session runs over an in-memory transport under an executor the harness owns; every poll, spurious poll, send-progress step and reply delivery (in order or permuted) is a tape choice. Oracle over the history: message-ids distinct, every future resolves to the reply carrying its own unique tag, nothing delivered twice, no stuck task at quiescence, an unknown-id reply never becomes an Ok value.",
+         "One run in 50: C18's scenario (abandoned reply futures). One run in 64: pipelined requests over the real TLS / SSH / local transports with several complete replies per delivery. Otherwise seeded search over schedules: the real Session runs over an in-memory transport under an executor the harness owns; every poll, spurious poll, send-progress step and reply delivery (in order or permuted) is a tape choice. Oracle over the history: message-ids distinct, every future resolves to the reply carrying its own unique tag, nothing delivered twice, no stuck task at quiescence, an unknown-id reply never becomes an Ok value.",
          "Trusted: the harness's own XML parser and executor; tokio::sync::Mutex (real, executor-agnostic). The three real transports are replaced by the in-memory Transport (they are exercised by C06/C07).",
          "deterministic simulation: seeded scheduler over real session futures, history oracle"),
  "C18": ("S-sim + R-sim", "exploration", "DESIGN.md §5 C18",
@@ -14,25 +14,25 @@ CHECKS = {
          "deterministic simulation: seeded scheduler with cancellation injected at suspension points"),
  "C08": ("S-sim", "exploration", "DESIGN.md §5 C08",
          "Reply documents are generated from the NETCONF/Junos reply grammar (0-4 rpc-error elements of every type/tag/severity with optional children, positive indications, load-configuration-results with consistent or inconsistent load-error-count, in every order) and delivered through the real receive path to one request of each reply type among other outstanding requests. Oracle from the generated document: Ok implies no error-severity rpc-error and the operation's positive indication; Err(RpcError(list)) implies list == the document's rpc-errors in order.",
-         "Decided by generated peer behaviour, not by schedule. Trusted: the generator's own model of each rpc-error; comparison uses Display (type, severity) and Debug (tag, message, path, info) of the library's error values.",
+         "Decided mainly by generated peer behaviour; the schedule varies in the delivery order of the replies and the order in which the reply futures are awaited. Trusted: the generator's own model of each rpc-error; comparison uses Display (type, severity) and Debug (tag, message, path, info) of the library's error values.",
          "deterministic simulation: generated server replies through the real session, document-derived oracle"),
- "C09": ("S-sim", "exploration", "DESIGN.md §5 C09",
+ "C09": ("S-sim", "exploration", "DESIGN.md §5 C09 The url capability URI carries its scheme list alone or next to other query arguments.",
          "The server hello advertises a seeded subset of the RFC 6241 capabilities (every url-scheme combination) and optionally the Junos capability; 1-5 requests per session cover every builder with every datastore, filter type, option value and parameter. Soundness is judged on the content found on the wire (parsed by the harness) against a table transcribed from RFC 6241 section 8; completeness on the intended content; a rejected call must leave nothing on the wire.",
          "Trusted: the requirement table in props/c09.rs (edit-config to <startup/> is treated like the library does). load-configuration from a URL cannot be constructed through the public API and is not covered.",
          "deterministic simulation: capability-set x request matrix sampled through the real builders, wire-content oracle"),
- "C10": ("S-sim + R-sim", "exploration", "DESIGN.md §5 C10",
+ "C10": ("S-sim + R-sim", "exploration", "DESIGN.md §5 C10 A caller-supplied payload whose serialisation fails half-way must make the call fail, send nothing and leave later messages unaffected.",
          "Every text-valued and fragment-valued parameter site of every operation (19 sites), alone or together with the other parameters of its operation (commit, commit-configuration, edit-config combinations), is driven with adversarial values; one run in 1500 sends a 70-260 KiB request over the real transports under back-pressure; (XML metacharacters, quotes, ']]>', the delimiter itself, entity look-alikes, comment/CDATA/PI openers, non-ASCII, empty) and generated well-formed fragments. The fake server frames the byte stream by the delimiter like a real one and parses with the harness's strict XML parser: exactly one message per rpc(), well-formed, value read back unchanged, fragments equal as subtrees.",
          "Decided by generated parameter values. The agent's own payloads (policy names, comments) are covered through A-sim in C01. Attribute-valued parameters are generated without tab/newline.",
          "deterministic simulation: adversarial parameter values through the real serialisers, strict server-side parse"),
  "C12": ("S-sim + R-sim(TLS)", "exploration", "DESIGN.md §5 C12",
-         "Seeded: the hello matrix (base 1.0/1.1/both/neither x other capabilities x session-id variants x namespace style x XML declaration x element order x malformed hellos incl. a second <capabilities> and a foreign-namespace capability element) under permuted scheduling of the simultaneous hello exchange (hello available early, or server waits for the client's hello; client send back-pressure). Oracle: established iff well-formed, valid session-id and a common base version; negotiated = highest common; reported id and capability set = the hello's; first rpc succeeds.",
+         "Seeded: the hello matrix (base 1.0/1.1/both/neither x other capabilities x session-id variants x namespace style x XML declaration x element order x malformed hellos incl. a second <capabilities> and a foreign-namespace capability element x a write error on the client's own hello) under permuted scheduling of the simultaneous hello exchange (hello available early, or server waits for the client's hello; client send back-pressure). Oracle: established iff well-formed, valid session-id and a common base version; negotiated = highest common; reported id and capability set = the hello's; first rpc succeeds.",
          "The framing half (a conforming :base:1.1 peer uses chunked framing) needs the real transports and is run over real TLS as the enumerated part.",
          "deterministic simulation: hello matrix x exchange order; framing against a conforming peer over the real TLS transport"),
  "C13": ("S-sim", "exploration", "DESIGN.md §5 C13",
          "Metamorphic pairs: each generated hello / rpc-reply / configuration document is serialised canonically and under a seeded composition of information-preserving rewrites (8 kinds), both are parsed by the real readers; accept/reject and value must agree. A divergence is narrowed to a single rewrite site; the class (message kind, rewrite, element) identifies the finding, and a known divergence does not hide another one in the same message.",
          "Trusted: the harness serialiser (self-checked on every run: both serialisations must be the same document for the harness's own parser).",
          "deterministic simulation: metamorphic serialisation pairs through the real readers"),
- "C14": ("S-sim + R-sim", "exploration", "DESIGN.md §5 C14",
+ "C14": ("S-sim + R-sim", "exploration", "DESIGN.md §5 C14 The harness is built with overflow checks, so an arithmetic overflow in a reader is a panic; leaf values are also replaced by numbers up to and beyond 2^64.",
          "One run in 150: over the real transports the hello or a reply is cut short and the peer then goes away (C07's close kinds). Otherwise a session with 1-4 outstanding requests in separate tasks; the hello or one reply is replaced by a mutation of the valid message (20 mutation kinds incl. truncation at any offset, splices, byte flips, invalid UTF-8, huge numbers, 64 KiB / 4 MiB text, deep nesting, random bytes, one leaf text or attribute value replaced by long ASCII + multi-byte text); the mutated reply answers one of six operations (get, lock, open-, close-, load-, commit-configuration) and starts from one of that operation's valid reply shapes or a complete rpc-error, so that every reply reader is reached. Oracle: no panic, quiescence within the step budget, every other request still resolves to its own reply (at most one innocent reader may err), no poll hangs (watchdog). The same mutations are fed to the agent's two configuration readers.",
          "Mutations that name another outstanding message-id are skipped. A non-returning poll is caught by a 20 s real-time watchdog (class spin).",
          "deterministic simulation: mutated server bytes with other requests outstanding, seeded delivery order"),
@@ -40,19 +40,19 @@ CHECKS = {
          "Histories of 1-6 consecutive runs of the real agent (Updater::run) against FakeJunos + FakeIrrd on a paused tokio clock, the world mutating between runs (IRR data, annotations, activation, names, expressions); one run in four meets a NETCONF fault (success must still imply convergence) and one fault-free run in 60 is made end to end by the agent executable over real TLS / TCP. After every successful run: committed accept-set per family == reference evaluation, final reject, no stale policy, read-back of the committed state through the agent's own reader; finally one more run with unchanged inputs must succeed and change nothing.",
          "Trusted: FakeJunos's merge/delete semantics and get-config dialect (assumptions listed in evidence), the reference evaluator (rpsl + generic-ip over the database), the harness XML parser.",
          "deterministic simulation: run histories against router and IRR models, virtual time, seeded delays and hash order"),
- "C02": ("A-sim", "exploration", "DESIGN.md §5 C02",
+ "C02": ("A-sim", "exploration", "DESIGN.md §5 C02 Whatever a run commits must be closed for every policy it sent a load for, also after the router refused a load and merged part of it (fault kind LoadPartial).",
          "The C01 histories with NETCONF faults at seeded request positions, so that runs abort after any prefix of the update sequence; the oracle runs on the model's working copy after every single applied load-configuration (accepting terms restricted to one family, with explicit route-filters all inside the evaluated set, final reject), on the element paths of every payload and on the set of operations and the ephemeral instance used.",
          "Same trusted base as C01.",
          "deterministic simulation: per-load invariant on the router model under injected aborts"),
- "C03": ("A-sim", "fault_enumeration", "DESIGN.md §5 C03",
+ "C03": ("A-sim", "fault_enumeration", "DESIGN.md §5 C03 Managed policies whose expression uses a construct the evaluator does not support (PeerAS, AS-path regexps, attribute matches) are included.",
          "Histories biased towards unobtainable prefix data: unknown as-set, IRR error responses (F/E/D) to the members query, IRRd refusing the connection, unparseable bgpfu-fltr annotations, with the policy installed or not. Oracle: no update or delete names such a policy, its installed state is unchanged, deletes only name policies that are not marked as managed. All violations of a run are collected so that the known finding does not hide another.",
          "Same trusted base as C01; unknown route-/filter-sets are defined by bgpfu-lib as empty sets and are not faults.",
          "deterministic simulation: IRR fault kinds x candidate/installed combinations through the real agent"),
  "C04": ("A-sim", "fault_enumeration", "DESIGN.md §5 C04",
-         "1-2 faults at seeded positions of open -> get-config x2 -> load x N -> commit -> close-configuration -> close-session, 13 fault kinds (rpc-error, error in load results with/without <ok/>, <ok/> followed by an error, a reply without any content, malformed, truncated, unknown id, another outstanding id, duplicate, close before/after the reply, warning+ok as a non-fault), with reply delays so that a failing load reply arrives after later loads were sent. Oracle on the server's per-session request log and delivery flags.",
+         "1-2 faults at seeded positions of open -> get-config x2 -> load x N -> commit -> close-configuration -> close-session, 14 fault kinds (rpc-error, a load that is refused but partially merged, error in load results with/without <ok/>, <ok/> followed by an error, a reply without any content, malformed, truncated, unknown id, another outstanding id, duplicate, close before/after the reply, warning+ok as a non-fault), with reply delays so that a failing load reply arrives after later loads were sent. Oracle on the server's per-session request log and delivery flags.",
          "The fake server's classification of its own replies (positive / negative / garbage) is the reference for 'acknowledged'.",
          "deterministic simulation: fault position x fault kind injection against a recording server, virtual delays"),
- "C06": ("R-sim", "fault_enumeration", "DESIGN.md §5 C06",
+ "C06": ("R-sim", "fault_enumeration", "DESIGN.md §5 C06 One seeded run in ten drops the reading future between two deliveries (bytes already taken off the stream must stay with the transport).",
          "Real TLS, SSH and local-CLI transports against a scripted peer on one paused-clock runtime; one chunk = one TLS record / SSH CHANNEL_DATA / pipe write, delivered in lock-step. Enumerated per transport: every single cut within 8 bytes of each delimiter, every pair of cuts inside a delimiter, all groupings of 2-3 replies, one-byte chunks, 41 reply sizes around the receive-buffer boundaries; plus seeded cut sets. Oracle: each request resolves to its own reply within 100 virtual ms of its delimiter's last byte.",
          "Relies on synchronous loopback/pipe delivery (Nagle disabled on the client socket by the harness); guarded by the standing re-execution check. Absolute virtual instants are kept out of the event log.",
          "deterministic simulation: segmentation enumeration over real transports, scripted peer, paused clock"),
@@ -64,11 +64,11 @@ CHECKS = {
          "The real RpslEvaluator over the vendored irrc pipeline whose socket is an in-memory stream with seeded short reads and partial writes, against FakeIrrd over a generated database (nested/cyclic/hierarchical as-sets, v4-only/v6-only/routeless ASes, duplicates, nested route-sets, filter-sets; thorough: >1000 pipelined queries). One run in 40 is a C01-style history of real agent runs (router state == reference set split by family). One run in 16 evaluates through the bgpfu executable (child process) over a loopback TCP connection to FakeIrrd and compares the printed ranges. Oracle: equality with rpsl's evaluator over a resolver that reads the database directly.",
          "rpsl expression semantics and generic-ip set algebra are trusted (both sides). NOT is only generated over ANY and short IPv4 literal sets: generic-ip's complement is exponential in prefix length (seconds for a /24, unbounded for IPv6). The agent half is checked by C01.",
          "deterministic simulation: IRR protocol model with seeded segmentation, reference evaluation"),
- "C15": ("A-sim", "exploration", "DESIGN.md §5 C15",
+ "C15": ("A-sim", "exploration", "DESIGN.md §5 C15 One world in eight has a policy over a 70-100 member as-set on an IRR mirror that answers every route6 query with an error (dozens of sunk errors in one evaluation).",
          "Agent runs over 1-10 managed policies of which some are unevaluable (unknown as-set, IRR error, PeerAS, AS-path regex, community match) in all (seeded) hash orders; one run in 60 is made end to end by the agent executable. Oracle: the run succeeds, evaluable policies reach their reference sets and are committed, unevaluable ones are untouched.",
          "Same trusted base as C01.",
          "deterministic simulation: unevaluable members x evaluation order through the real agent"),
- "C16": ("A-sim", "exploration", "DESIGN.md §5 C16",
+ "C16": ("A-sim", "exploration", "DESIGN.md §5 C16 One run in 400 is a C01-style history of real agent runs (the reader fed through the session's reply routing, spawned tasks starting in seeded order).",
          "Running configurations from a grammar (annotation present/absent/near-miss/unparseable, decorations, jcmd:active, four attribute orders incl. Junos's duplicate xmlns:jcmd, special characters in names and expressions, five body shapes) through the real candidate reader; oracle: (name, expression) set == an independent selection over the generated description.",
          "Decided by generated peer output, not by schedule or faults (see DESIGN.md §6): the simulator contributes the router model that renders the documents.",
          "generated router configurations through the real reader vs independent selection"),
